@@ -687,7 +687,13 @@ def rule_call_signature(check):
     al = [lid for lid, b in h.bindings().items() if b["name"] == "arguments" and b["origin"][0] == "let"]
     evs = [n for n in h.nodes() if hir.is_call(n) and any((hir.local_of(x) or (None,))[0] == al[0] for x in hir.call_args(n))] if al else []
     seq = [ev_name(n) for n in evs if ev_name(n) != "get_dd_paren_expr"]
-    ok = seq == ["push", "push", "replace_call_callee_and_args"]
+
+    def _clones_call(n_):
+        """a crate function that hands back the cloned call with its arguments replaced"""
+        g_ = prog.resolve_local(n_)
+        return g_ is not None and (g_.rec.get("ret") or "").endswith("CallExpr") and any(hir.is_call(y) and (hir.callee_name(y) or "") == "replace_expressions_in_expr_or_spread" for x_ in prog.flat(g_, 2) for y in hir.walk(x_.body))
+
+    ok = seq[:2] == ["push", "push"] and len(seq) == 3 and (seq[2] == "replace_call_callee_and_args" or _clones_call([n for n in evs if ev_name(n) != "get_dd_paren_expr"][2]))
     if ok:
         o1 = pv.origins(h, hir.call_args(evs[0])[1])
         first_is_ident = all((r[0] == "param" and r[2] == 0) or (r[0] == "ctor" and r[1].endswith("Expr::Ident")) for r, p in o1)
@@ -731,6 +737,10 @@ def rule_call_signature(check):
     for f_, n in writers:
         atoms = gate.atoms_at(f_, n)
         ok_ = f_ is rc and any(a[0] == "variant" and a[3] is True and str(a[2]).split("::")[-1] == "Some" and (a[1] or "").split("#")[0] in cal_names for a in atoms)
+        if not ok_ and f_ is rc:
+            # the function replaces the callee on every path, and the bare-call path does not go through it
+            # (it clones the call with a helper that leaves the callee alone)
+            ok_ = not [a for a in atoms if a[0] not in ("variant",)] and f_.def_path not in {x.def_path for x in prog.flat(h, 3)}
         check.expect(ok_, R, "%s/callee-write/%s" % (R, f_.name), hir.loc(n), "the callee of the cloned call is replaced only when a callee temporary is supplied", "%s overwrites the callee of a call outside the reviewed member path: the emitted call is no longer the original call" % f_.name)
     # the same decision written as a value: `CallExpr { callee: match ident_callee_expr { Some(i) => <member>,
     # None => call.callee.clone() }, .. }`
@@ -1405,7 +1415,27 @@ def rule_fanout(check):
 
 
 def _fanout_exception(prog, f, a, b, place):
-    locs0 = {hir.local_of(hir.call_args(x)[0]) for x in (a, b)}
+    def _root_local(l_, depth=0):
+        """the local a wrapper local stands for: `let this_arg = ExprOrSpread::from(x)` / `Box::new(x)` / `x.into()` -> x"""
+        if l_ is None or depth > 3:
+            return l_
+        b_ = f.bindings().get(l_[0])
+        if b_ and b_["origin"][0] == "let" and b_["origin"][1] is not None and not f.assignments_to(l_[0]):
+            i_ = hir.peel_transparent(b_["origin"][1])
+            if hir.local_of(i_) is not None:
+                return _root_local(hir.local_of(i_), depth + 1)
+            if hir.is_call(i_) and (hir.callee_name(i_) or i_.get("method")) in ("from", "into", "new") and len(hir.call_args(i_)) == 1:
+                inner = hir.local_of(hir.peel_transparent(hir.call_args(i_)[0]))
+                if inner is not None:
+                    return _root_local(inner, depth + 1)
+            if i_.get("k") == "Struct":
+                ls_ = {hir.local_of(hir.peel_transparent(x)) for fl in i_["fields"] for x in [fl["e"]] if hir.local_of(hir.peel_transparent(x)) is not None}
+                ls_ |= {hir.local_of(hir.peel_transparent(hir.call_args(x)[-1])) for fl in i_["fields"] for x in [hir.peel_transparent(fl["e"])] if hir.is_call(x) and hir.call_args(x) and hir.local_of(hir.peel_transparent(hir.call_args(x)[-1])) is not None}
+                if len(ls_) == 1:
+                    return _root_local(list(ls_)[0], depth + 1)
+        return l_
+
+    locs0 = {_root_local(hir.local_of(hir.call_args(x)[0])) for x in (a, b)}
     l0 = list(locs0)[0] if len(locs0) == 1 and None not in locs0 else None
     b0 = f.bindings().get(l0[0]) if l0 else None
     def _from_temp_helper(e, depth=0):
@@ -1426,7 +1456,7 @@ def _fanout_exception(prog, f, a, b, place):
         g = prog.fn("IdentProvider::get_temporal_ident_used_in_assignation")
         nones = [r for r in return_exprs(g.body) if (hir.peel(r).get("res", {}).get("ctor_path") or "").split("::")[-1] == "None"]
         ok = bool(nones) and all(gate.has_call_gate(gate.atoms_at(g, r), "is_lit", True) for r in nones)
-        locs = {hir.local_of(hir.call_args(x)[0]) for x in (a, b)}
+        locs = {_root_local(hir.local_of(hir.call_args(x)[0])) for x in (a, b)}
         same_local = len(locs) == 1 and None not in locs
         if ok and same_local:
             return "both copy the receiver stand-in, which is the original receiver only when it is a literal (get_temporal_ident_used_in_assignation returns None only under is_lit())"
@@ -1595,6 +1625,26 @@ def rule_optchain_lowering(check):
         for r, p in co:
             if r[0] == "ctor" and r[1].endswith("Expr::Ident"):
                 call = prog.by_def[r[2]].by_id(r[3])
+                def _strs(e_, depth=0):
+                    """string literals and crate string constants under e_ (through locals)"""
+                    out_ = []
+                    for y in hir.walk(e_):
+                        if y.get("k") == "Lit" and y["lit"]["t"] == "str":
+                            out_.append(y["lit"]["v"])
+                        d_ = hir.def_path_of(y) if y.get("k") == "Path" else None
+                        if d_:
+                            for cp_, crec in prog.consts.items():
+                                if cp_ == d_ or cp_.split("::")[-1] == d_.split("::")[-1]:
+                                    out_ += [z["lit"]["v"] for z in hir.walk(crec["body"]) if z.get("k") == "Lit" and z["lit"]["t"] == "str"]
+                        l2 = hir.local_of(y) if y.get("k") == "Path" else None
+                        if l2 and depth < 3:
+                            i2 = f.bindings()[l2[0]]["origin"][1] if f.bindings().get(l2[0]) else None
+                            if isinstance(i2, dict):
+                                out_ += _strs(i2, depth + 1)
+                    return out_
+
+                if "undefined" in _strs(call):
+                    und = True
                 for x in hir.walk(call):
                     l = hir.local_of(x)
                     if l:
